@@ -53,11 +53,17 @@ fn eps0_candidates(rt: &RefT, x: &[f64], r: &[f64]) -> (Vec<f64>, f64) {
         }
         out.push(eps);
     }
-    // Variant B: mfouesneau/NUTS (evaluate at eps=1, continue from eps/2)
-    {
+    // Variant B: mfouesneau/NUTS (evaluate at eps=1, continue from eps/2); the back-off while the trial step is not
+    // finite is taken in both readings ("log-density OR gradient non-finite", "log-density AND gradient non-finite")
+    for both in [false, true] {
+        let bad = |k: f64| -> bool {
+            let (x1, _, lp1, _) = leap(rt, x, r, k);
+            let g_bad = (rt.g)(&x1).iter().any(|v| !v.is_finite());
+            if both { !lp1.is_finite() && g_bad } else { !lp1.is_finite() || g_bad }
+        };
         let mut k = 1.0;
         let mut tries = 0;
-        while !leap(rt, x, r, k).3 && tries < 200 {
+        while bad(k) && tries < 200 {
             k *= 0.5;
             tries += 1;
         }
@@ -190,9 +196,7 @@ fn check_history(ctx: &Ctx, rt: &RefT, obs: &[RunObs], delta: f64, f32s: bool, c
         if ri == 0 {
             // eps0 from the doubling/halving heuristic at the start point; mu = ln(10 eps0)
             let (cands, margin) = eps0_candidates(rt, &ro.start_pos, &ro.init_momentum);
-            if tname.starts_with("NanPocket") || tname.starts_with("Gamma") {
-                ctx.outcome("eps0 not compared (target with a NaN region)", 1);
-            } else if margin < if f32s { 1e-3 } else { 1e-7 } {
+            if !margin.is_finite() || margin < if f32s { 1e-3 } else { 1e-7 } {
                 ctx.outcome("eps0-ambiguous(threshold inside margin)", 1);
             } else if !cands.iter().any(|c| (c - eps_init).abs() <= 1e-12 * c) {
                 ctx.violation(mk("C04:eps0-heuristic", format!("initial step size {eps_init} is neither variant of the doubling/halving heuristic ({cands:?}) for start {:?} and momentum {:?}", ro.start_pos, ro.init_momentum)));
@@ -231,7 +235,10 @@ fn check_history(ctx: &Ctx, rt: &RefT, obs: &[RunObs], delta: f64, f32s: bool, c
             let eta = 1.0 / (m + T0);
             let want_h = (1.0 - eta) * h_bar_prev + eta * (delta - alpha / n_alpha);
             let eh = (h_bar - want_h).abs() / want_h.abs().max(1e-3);
-            if alpha.is_finite() && !(eh <= rel * 10.0) {
+            // after warm-up the statement does not say whether H-bar keeps accumulating: both "updated by the recurrence"
+            // and "left unchanged" are accepted there (during warm-up only the recurrence is)
+            let frozen_ok = m > ro.n_discard as f64 && h_bar.to_bits() == h_bar_prev.to_bits();
+            if alpha.is_finite() && !(eh <= rel * 10.0) && !frozen_ok {
                 ctx.violation(mk("C04:h-bar", format!("run #{ri} transition {ti} (m={m}): H-bar {h_bar}, recurrence (1-1/(m+t0)) H + (delta - alpha/n_alpha)/(m+t0) gives {want_h} (alpha/n_alpha = {})", alpha / n_alpha)));
                 return;
             }
